@@ -77,6 +77,7 @@ def run_jobs(jobs, workdir):
             j = pending.pop(0)
             out = os.path.join(workdir, "%s.%d.json" % (j["name"].replace("/", "_"), j["shard"]))
             env = dict(os.environ)
+            env["VT_WORKDIR"] = workdir   # scratch files of harnesses live here and go away with it
             env.update({"VT_SHARD": str(j["shard"]), "VT_NSHARDS": str(j["nshards"]), "VT_TIER": j["tier"],
                         "PYTHONPATH": PYPATH, "PYTHONDONTWRITEBYTECODE": "1",
                         # string hash seed of the workers: 0 unless an obligation (or VT_HASHSEED, for exploratory runs) says otherwise
